@@ -32,6 +32,7 @@ type LoopSpec struct {
 	Decreases  *Clause
 	Unroll     int
 	Assumes    []*Clause // assumed at the loop head, not checked (listed in evidence)
+	Isolated   bool      // "isolated": obligations from the loop head on do not see quantified facts stated between the start of the body and this loop
 	Exits      []*Clause // "exit": proved where the loop is left; the heap written so far is then forgotten except for these facts (a cut)
 }
 
@@ -176,7 +177,7 @@ func (cs *ContractSet) parseFile(path string) error {
 	topKw := map[string]bool{"func": true, "spec": true, "ghost": true, "axiom": true, "funcspec": true, "lib": true, "ghostfield": true}
 	clKw := map[string]bool{"requires": true, "ensures": true, "invariant": true, "decreases": true, "modifies": true,
 		"canary": true, "props": true, "inline": true, "trusted": true, "loop": true, "call": true, "implements": true,
-		"unroll": true, "overflow": true, "nooverflow": true, "pure": true, "free": true, "assume": true, "terminates": true, "callassume": true, "exit": true}
+		"unroll": true, "overflow": true, "nooverflow": true, "pure": true, "free": true, "assume": true, "terminates": true, "callassume": true, "exit": true, "isolated": true}
 	for _, r := range raws {
 		t := strings.TrimSpace(r.text)
 		if t == "" {
@@ -312,6 +313,11 @@ func (cs *ContractSet) parseFile(path string) error {
 					if c.Loops[n] == nil {
 						c.Loops[n] = &LoopSpec{Ordinal: n}
 					}
+				case "isolated":
+					if curLoop < 0 {
+						return fmt.Errorf("%s:%d: isolated outside loop", cl.file, cl.line)
+					}
+					c.Loops[curLoop].Isolated = true
 				case "unroll":
 					if curLoop < 0 {
 						return fmt.Errorf("%s:%d: unroll outside loop", cl.file, cl.line)
